@@ -329,7 +329,11 @@ pub fn profile_name() -> String {
 pub fn run_shard(p: &Property, tier: Tier, seed: u64, shard: usize, nshards: usize, out: &Path) {
     install_panic_hook();
     let mut ctx = Ctx::new(p.id, tier, seed, shard, nshards);
-    (p.run)(&mut ctx);
+    // a panic that escapes the per-case guards is a bug of the harness itself: say so and die
+    if let Err(e) = guard(|| (p.run)(&mut ctx)) {
+        eprintln!("harness panic in {} shard {shard}: {e}", p.id);
+        std::process::exit(101);
+    }
     ctx.finish(out);
 }
 
@@ -418,7 +422,14 @@ pub fn drive(p: &Property, tier: Tier) -> i32 {
         let mut c = Command::new(&exe);
         c.arg("shard").arg(p.id).arg(tier.name()).arg(seed.to_string()).arg(i.to_string()).arg(n.to_string()).arg(shard_path(i));
         c.stdin(Stdio::null());
-        c.stderr(Stdio::null());
+        match std::fs::File::create(shard_path(i).with_extension("stderr")) {
+            Ok(f) => {
+                c.stderr(f);
+            }
+            Err(_) => {
+                c.stderr(Stdio::null());
+            }
+        }
         if let Some(pp) = paranoid {
             c.env("RVMON_PARANOID", pp);
         }
@@ -443,7 +454,8 @@ pub fn drive(p: &Property, tier: Tier) -> i32 {
                         let log = std::fs::read_to_string(&pfile).unwrap_or_default();
                         let last = log.lines().last().unwrap_or("").to_string();
                         if last.is_empty() {
-                            inconclusive.push(format!("shard {i} died ({st2}) before announcing any case"));
+                            let err = std::fs::read_to_string(shard_path(*i).with_extension("stderr")).unwrap_or_default();
+                            inconclusive.push(format!("shard {i} died ({st2}) before announcing any case: {}", err.lines().last().unwrap_or("")));
                         } else {
                             // the case line is "<signature-hint>\t<description>"
                             let (hint, desc) = last.split_once('\t').unwrap_or(("case", &last));
@@ -512,6 +524,7 @@ pub fn drive(p: &Property, tier: Tier) -> i32 {
         }
         let _ = std::fs::remove_file(&path);
         let _ = std::fs::remove_file(path.with_extension("bin"));
+        let _ = std::fs::remove_file(path.with_extension("stderr"));
     }
     all_hashes.sort_unstable();
     all_hashes.dedup();
